@@ -39,6 +39,12 @@ BUFFER_RULE = ("long-drive: payload lengths around the implementation's size thr
                "states (buf, validUntil, mode, markerOpen) reached on the real object")
 
 
+def universe_wellformed(ctx):
+    """everything printed for the fmt-compatible value universe (random formats, verb x flag grid, four routes) is well-formed
+    and line-safe -- values and TYPE NAMES (struct tags) holding markers, line feeds and partial markers included"""
+    ctx.harness(["fmtdiff-drive", "-prop", ctx.prop, "-n", str(tier(ctx, 60000, 1000000))])
+
+
 def long_payloads(ctx):
     """payload lengths around the size thresholds of the implementation (64-byte small buffer, doubling growth, the
     64 KiB pool limit, any size-dependent fast path): buffer histories and printing calls, judged model-free"""
@@ -338,6 +344,7 @@ def c01(ctx):
         printer_slice(ctx, "panic")
         printer_slice(ctx, "dir")
     long_payloads(ctx)
+    universe_wellformed(ctx)
 
 
 def c03(ctx):
@@ -351,6 +358,7 @@ def c03(ctx):
     if ctx.tier == "thorough":
         printer_slice(ctx, "smoke")
     long_payloads(ctx)
+    universe_wellformed(ctx)
 
 
 def writer_model(ctx):
